@@ -337,7 +337,11 @@ func (o *obsT) coq(ids []int64) string {
 		if p.Status == 1 {
 			vend = 0
 		}
-		ps = append(ps, fmt.Sprintf("mk_pobs %d %d %s %s %s %s [%s; %s; %s; %s]", p.ID, p.Status, lib.Bool(p.Expedited),
+		st := p.Status
+		if p.Undecodable {
+			st += 7 // 8 / 9: undecodable while in the deposit / voting period
+		}
+		ps = append(ps, fmt.Sprintf("mk_pobs %d %d %s %s %s %s [%s; %s; %s; %s]", p.ID, st, lib.Bool(p.Expedited),
 			zb(p.Total), lib.List(deps), lib.Z(vend), zb(p.Tally[0]), zb(p.Tally[1]), zb(p.Tally[2]), zb(p.Tally[3])))
 	}
 	var bs []string
@@ -2286,7 +2290,12 @@ func (h *hist) run(nops int) {
 				h.genExpeditedEnd()
 			}
 		case x < 80:
-			if r.Chance(70) {
+			if open := h.openIDs(0); h.class == "govsend" && len(open) > 0 && r.Chance(25) {
+				// a stored record becomes undecodable (defect class only: on the tree as it is this ends in a halt)
+				if p := h.propObs(open[r.Intn(len(open))]); p != nil && !p.Undecodable {
+					h.opCorrupt(p.ID)
+				}
+			} else if r.Chance(70) {
 				h.genGovParams()
 			} else {
 				h.opMint(int64(10+r.Intn(6)), fxAmt(int64(1+r.Intn(1000))))
